@@ -842,7 +842,7 @@ class PyFat(object):
         i = first_cluster
         visited = 0
         while True:
-            if i < 0 or i >= len(self.fat):
+            if i < min_data_cluster or i >= len(self.fat):
                 raise PyFATException("Cluster chain points outside of the "
                                      "FAT, cannot access file")
             visited += 1
